@@ -1842,6 +1842,19 @@ class Module(ABC):
                     self.base.membrane_current_names.remove(channel.current_name)
                 unused_cols = [col for col in channel_cols if len(users_of(col)) == 0]
                 self.base.nodes.drop(columns=unused_cols + [name], inplace=True)
+
+                # Recordings and clamps of states (or of the current) that no longer
+                # exist anywhere in the module are removed as well. Otherwise
+                # `integrate` raises a `KeyError` until they are deleted by hand.
+                gone = list(unused_cols)
+                if channel.current_name not in self.base.membrane_current_names:
+                    gone.append(channel.current_name)
+                if not self.base.recordings.empty:
+                    keep = ~self.base.recordings["state"].isin(gone)
+                    self.base.recordings = self.base.recordings[keep]
+                for key in gone:
+                    self.base.externals.pop(key, None)
+                    self.base.external_inds.pop(key, None)
         else:
             raise ValueError(f"Channel {name} not found in the module.")
 
